@@ -61,6 +61,8 @@ type QueryObs struct {
 	TCPPackets    int      `json:"tcp_packets"`
 	SinkPackets   int      `json:"sink_packets"`
 	AfterReply    int      `json:"packets_after_reply"`
+	Foreign       int      `json:"foreign_packets_ignored,omitempty"`
+	ForeignSeen   []string `json:"foreign_packets,omitempty"`
 	Trees         uint64   `json:"ledgers_published"`
 	Debits        int64    `json:"ledger_outbound_debits"`
 	Exhausted     []string `json:"exhausted,omitempty"`
@@ -296,6 +298,16 @@ func (s *stackRun) ask(client string, q QuerySpec) *QueryObs {
 	for _, p := range u.Log.Since(from) {
 		p := p
 		if isMarker(&p) {
+			continue
+		}
+		if !s.w.owns(p.QNameL) {
+			// a datagram from some other process on this machine (another
+			// resolver still holding a loopback port number that now
+			// belongs to one of our servers): not this resolver's work
+			obs.Foreign++
+			if len(obs.ForeignSeen) < 8 {
+				obs.ForeignSeen = append(obs.ForeignSeen, p.String())
+			}
 			continue
 		}
 		obs.Packets++
